@@ -15,7 +15,8 @@ ROOT = os.path.dirname(os.path.dirname(os.path.abspath(__file__)))
 NPROC = int(os.environ.get('VERIF_NPROC', '16'))
 VIOL_PER_SHARD = 4
 MAX_REPLAYS = 12
-STOP_AFTER = 60  # unlisted violations after which the remaining shards are abandoned (reported as a cap)
+STOP_AFTER = int(os.environ.get('VERIF_STOP_AFTER', '60'))  # unlisted violations after which the remaining shards are abandoned (reported as a cap)
+OUT = os.environ.get('VERIF_OUT') or None   # mutation campaigns only: evidence and replay files go there instead of /verif
 
 VOLATILE = ('observed', 'expected', 'what', 'detail')
 
@@ -220,7 +221,7 @@ def run(check_id, tier, seed):
 
     # ---- report violations
     violations.sort(key=lambda ic: (ic[0], json.dumps(ic[1], sort_keys=True, default=repr)))
-    rdir = os.path.join(ROOT, 'replays', check_id)
+    rdir = os.path.join(OUT or ROOT, 'replays', check_id)
     if os.path.isdir(rdir):
         for fn in os.listdir(rdir):
             if fn.endswith('.json'):
@@ -285,8 +286,8 @@ def run(check_id, tier, seed):
         'assumptions': list(getattr(check, 'ASSUMPTIONS', [])), 'wall_s': round(wall, 2),
         'violations': agg['nviol'],
     }
-    os.makedirs(os.path.join(ROOT, 'evidence'), exist_ok=True)
-    with open(os.path.join(ROOT, 'evidence', check_id + '.json'), 'w') as fh:
+    os.makedirs(os.path.join(OUT or ROOT, 'evidence'), exist_ok=True)
+    with open(os.path.join(OUT or ROOT, 'evidence', check_id + '.json'), 'w') as fh:
         json.dump(ev, fh, indent=1, sort_keys=True, default=repr)
 
     summary = ('%s tier=%s seed=%d shards=%d evaluations=%d nontrivial=%d states=%d transitions=%d '
